@@ -16,8 +16,16 @@ def install(RTree, REPROCESS, NotModelled):
         if k == "nul":
             return
         if k == "ws":
+            data = t[1]
+            if self.h5_drop_lf:
+                self.h5_drop_lf = False
+                c = self.cur
+                if data[0] == "\n" and c.name in ("pre", "listing", "textarea") and not c.children:
+                    data = data[1:]
+                    if not data:
+                        return
             self.reconstruct_afe()
-            self.insert_text(t[1])
+            self.insert_text(data)
             return
         if k == "char":
             self.reconstruct_afe()
@@ -89,7 +97,10 @@ def install(RTree, REPROCESS, NotModelled):
             if self.in_button_scope("p"):
                 self.close_p()
             self.insert_element(nm, attrs)
-            self.skip_lf = True
+            if "newline-drop-tied-to-in-body-space-handler" in sw:
+                self.h5_drop_lf = True
+            else:
+                self.skip_lf = True
             self.frameset_ok = False
             return
         if nm == "form":
@@ -101,32 +112,43 @@ def install(RTree, REPROCESS, NotModelled):
             return
         if nm == "li":
             self.frameset_ok = False
+            closed = False
             for node in reversed(self.stack):
                 if node.is_html("li"):
                     self.implied_end_tags(exclude="li")
                     self.pop_until("li")
+                    closed = True
                     break
                 if self.special(node) and not node.is_html("address", "div", "p"):
                     break
             if self.in_button_scope("p"):
                 self.close_p()
+                closed = True
+            if closed and self.foster and "implied-end-tag-in-table-resets-foster-parenting" in sw:
+                self.foster = False  # pinned behaviour: the implied end tag went through InTablePhase and reset the flag
             self.insert_element(nm, attrs)
             return
         if nm in ("dd", "dt"):
             self.frameset_ok = False
+            closed = False
             for node in reversed(self.stack):
                 if node.is_html("dd"):
                     self.implied_end_tags(exclude="dd")
                     self.pop_until("dd")
+                    closed = True
                     break
                 if node.is_html("dt"):
                     self.implied_end_tags(exclude="dt")
                     self.pop_until("dt")
+                    closed = True
                     break
                 if self.special(node) and not node.is_html("address", "div", "p"):
                     break
             if self.in_button_scope("p"):
                 self.close_p()
+                closed = True
+            if closed and self.foster and "implied-end-tag-in-table-resets-foster-parenting" in sw:
+                self.foster = False
             self.insert_element(nm, attrs)
             return
         if nm == "plaintext":
@@ -139,6 +161,8 @@ def install(RTree, REPROCESS, NotModelled):
             if self.in_scope("button"):
                 self.implied_end_tags()
                 self.pop_until("button")
+                if self.foster and "reprocess-request-dropped-in-table-voodoo" in sw:
+                    return  # pinned behaviour: InBody asks for the token to be reprocessed, InTablePhase drops the request
             self.reconstruct_afe()
             self.insert_element(nm, attrs)
             self.frameset_ok = False
@@ -209,7 +233,10 @@ def install(RTree, REPROCESS, NotModelled):
             return isindex(self, t)
         if nm == "textarea":
             self.insert_element(nm, attrs)
-            self.skip_lf = True
+            if "newline-drop-tied-to-in-body-space-handler" in sw:
+                self.h5_drop_lf = True
+            else:
+                self.skip_lf = True
             self.tok.state = "rcdata"
             self.frameset_ok = False
             if "textarea-text-handled-in-body-mode" in sw:
@@ -240,6 +267,8 @@ def install(RTree, REPROCESS, NotModelled):
         if nm in ("optgroup", "option"):
             if self.cur.is_html("option"):
                 self.stack.pop()
+                if self.foster and "implied-end-tag-in-table-resets-foster-parenting" in sw:
+                    self.foster = False
             self.reconstruct_afe()
             self.insert_element(nm, attrs)
             return
@@ -285,7 +314,9 @@ def install(RTree, REPROCESS, NotModelled):
         prompt = attrs.get("prompt", "This is a searchable index. Enter search keywords: ")
         for seg in _split(prompt):
             self.m_in_body(seg)
-        ia = [(k, v) for k, v in t[2] if k not in ("action", "prompt", "name")] + [("name", "isindex")]
+        ia = [(k, ("isindex" if k == "name" else v)) for k, v in t[2] if k not in ("action", "prompt")]
+        if "name" not in attrs:
+            ia.append(("name", "isindex"))
         self.body_start(("start", "input", tuple(ia), False))
         self.body_end(("end", "label"))
         self.body_start(("start", "hr", (), False))
@@ -316,6 +347,8 @@ def install(RTree, REPROCESS, NotModelled):
         if "dialog-does-not-close-p" in sw or "p-closers-html5lib" in sw:
             ends = BLOCK_ENDS
         if nm in ends:
+            if nm == "pre":
+                self.h5_drop_lf = False
             if not self.in_scope(nm):
                 return
             self.implied_end_tags()
@@ -371,12 +404,13 @@ def install(RTree, REPROCESS, NotModelled):
 
     # ================================================================== tables
     def clear_to(self, *names):
-        while not (self.cur.is_html(*names) or self.cur.is_html("html", "template")):
+        stop = ("html",) if "template-unsupported" in self.sw else ("html", "template")
+        while not (self.cur.is_html(*names) or self.cur.is_html(*stop)):
             self.stack.pop()
 
     def m_in_table(self, t):
         k = t[0]
-        if k in ("ws", "char", "nul") and self.cur.is_html(*TABLE_PARTS):
+        if k in ("ws", "char", "nul") and (self.cur.is_html(*TABLE_PARTS) or "table-text-regardless-of-current-node" in self.sw):
             self.pending_table_text = []
             self.orig_mode_tt = self.mode
             self.mode = "in_table_text"
@@ -415,6 +449,25 @@ def install(RTree, REPROCESS, NotModelled):
                 self.mode = "in_table_body"
                 return REPROCESS
             if nm == "table":
+                if self.fragment and "nested-table-start-not-reprocessed-in-fragment" in self.sw:
+                    # pinned behaviour: the implied </table> is handed to the *current* phase, whose request to
+                    # reprocess it is dropped, and in the fragment case the <table> token itself is not reprocessed
+                    if self.mode == "in_table_body":
+                        if self.in_table_scope(("tbody", "thead", "tfoot")):
+                            clear_to(self, "tbody", "tfoot", "thead")
+                            self.stack.pop()
+                            self.mode = "in_table"
+                        return
+                    if self.mode == "in_row":
+                        if self.in_table_scope("tr"):
+                            clear_to(self, "tr")
+                            self.stack.pop()
+                            self.mode = "in_table_body"
+                        return
+                    if self.in_table_scope("table"):
+                        self.pop_until("table")
+                        self.reset_mode()
+                    return
                 if not self.in_table_scope("table"):
                     return
                 self.pop_until("table")
@@ -432,7 +485,7 @@ def install(RTree, REPROCESS, NotModelled):
                     self.stack.pop()
                     return
             if nm == "form":
-                if self.form is not None or self.stack_has("template"):
+                if self.form is not None or (self.stack_has("template") and "template-unsupported" not in self.sw):
                     return
                 self.form = self.insert_element(nm, attrs)
                 self.stack.pop()
@@ -465,22 +518,29 @@ def install(RTree, REPROCESS, NotModelled):
         if k in ("ws", "char"):
             self.pending_table_text.append(t)
             return
+        if k == "doctype" and "table-text-not-flushed-by-doctype" in self.sw:
+            return  # pinned behaviour: the doctype is dropped without leaving "in table text"
+        flush_table_text(self)
+        return REPROCESS
+
+    def flush_table_text(self):
         pend = self.pending_table_text
         self.pending_table_text = []
         if any(p[0] == "char" for p in pend):
-            if "table-text-all-or-nothing" in self.sw or True:
-                # the standard: reprocess every pending character token with the "anything else" rules of "in table"
-                self.foster = True
-                try:
+            self.foster = True
+            try:
+                if "table-text-regardless-of-current-node" in self.sw:
+                    # pinned behaviour: one character token with all the pending text
+                    self.m_in_body(("char", "".join(p[1] for p in pend)))
+                else:
                     for p in pend:
                         self.m_in_body(p)
-                finally:
-                    self.foster = False
+            finally:
+                self.foster = False
         else:
             for p in pend:
                 self.insert_text(p[1])
         self.mode = self.orig_mode_tt
-        return REPROCESS
 
     def m_in_caption(self, t):
         k = t[0]
@@ -501,6 +561,9 @@ def install(RTree, REPROCESS, NotModelled):
             self.mode = "in_table"
             return REPROCESS
         if k == "end" and t[1] in ("body", "col", "colgroup", "html", "tbody", "td", "tfoot", "th", "thead", "tr"):
+            return
+        if k == "ws" and "cell-caption-space-not-in-body-rules" in self.sw:
+            self.insert_text(t[1])
             return
         return self.m_in_body(t)
 
@@ -632,6 +695,9 @@ def install(RTree, REPROCESS, NotModelled):
                 return
             close_cell(self)
             return REPROCESS
+        if k == "ws" and "cell-caption-space-not-in-body-rules" in self.sw:
+            self.insert_text(t[1])
+            return
         return self.m_in_body(t)
 
     # ================================================================== select
@@ -871,6 +937,8 @@ def install(RTree, REPROCESS, NotModelled):
                     return
                 lname = "".join(c.lower() if "A" <= c <= "Z" else c for c in node.name)
                 if lname == nm:
+                    if self.mode == "in_table_text" and "table-text-regardless-of-current-node" in self.sw:
+                        flush_table_text(self)
                     del self.stack[i:]
                     return
                 i -= 1
@@ -879,7 +947,7 @@ def install(RTree, REPROCESS, NotModelled):
                     break
             return getattr(self, "m_" + self.mode)(t)
 
-    for f in (m_in_body, body_start, body_end, m_in_table, m_in_table_text, m_in_caption, m_in_column_group, m_in_table_body, m_in_row,
+    for f in (m_in_body, body_start, body_end, m_in_table, m_in_table_text, flush_table_text, m_in_caption, m_in_column_group, m_in_table_body, m_in_row,
               m_in_cell, m_in_select, m_in_select_in_table, m_after_body, m_in_frameset, m_after_frameset, m_after_after_body,
               m_after_after_frameset, foreign):
         setattr(RTree, f.__name__, f)
